@@ -595,11 +595,13 @@ fn sampling_part(res: &mut PartResult) {
 fn seq_part(ctx: &Ctx, res: &mut PartResult, depth: usize, aggressive: bool, as_dist: bool) {
     res.engine = "E3 all update/flush sequences up to the depth through the real handles + State::flush + PayloadWriter vs. an exact reference model".into();
     let mut states = vcore::vseq::States::new();
-    const OPS: [&str; 9] = ["flush", "ci.increment(3)", "ca.absolute(next)", "gau.set(2.5)", "gau.increment(1)", "gau.decrement(0.25)", "his.record(k)", "ci.increment(0)", "his.record x 70 (more than one bucket block)"];
+    const OPS: [&str; 10] = ["flush", "ci.increment(3)", "ca.absolute(next)", "gau.set(2.5)", "gau.increment(1)", "gau.decrement(0.25)", "his.record(k)", "ci.increment(0)", "his.record x 70 (more than one bucket block)", "ci{route=b}.increment(3) (a second counter under the same name)"];
     let mut run = |seq: &[usize]| -> Option<usize> {
         let (mut drv, rec) = Driver::new(aggressive, false, 16, as_dist, vec![], None, 8192, false);
         let ci = rec.register_counter(&Key::from_name("ci"), &META);
         let ca = rec.register_counter(&Key::from_name("ca"), &META);
+        let cb = rec.register_counter(&Key::from_parts("ci", vec![metrics::Label::new("route", "b")]), &META);
+        let (mut cb_pend, mut cb_idle, mut cb_ever) = (0u64, false, false);
         let g = rec.register_gauge(&Key::from_name("gau"), &META);
         let h = rec.register_histogram(&Key::from_name("his"), &META);
         // reference model
@@ -647,6 +649,10 @@ fn seq_part(ctx: &Ctx, res: &mut PartResult, depth: usize, aggressive: bool, as_
                     next_rec += 1.0;
                 }
                 7 => ci.increment(0),
+                9 => {
+                    cb.increment(3);
+                    cb_pend += 3;
+                }
                 8 => {
                     for _ in 0..70 {
                         h.record(next_rec);
@@ -678,6 +684,15 @@ fn seq_part(ctx: &Ctx, res: &mut PartResult, depth: usize, aggressive: bool, as_
                         want.push(("ci".into(), 'c', vec!["0".into()]));
                         ci_idle = true;
                     }
+                    if cb_pend > 0 {
+                        want.push(("ci#route:b".into(), 'c', vec![cb_pend.to_string()]));
+                        cb_idle = false;
+                        cb_ever = true;
+                        cb_pend = 0;
+                    } else if cb_ever && !cb_idle {
+                        want.push(("ci#route:b".into(), 'c', vec!["0".into()]));
+                        cb_idle = true;
+                    }
                     let d = ca_cur - ca_last;
                     ca_last = ca_cur;
                     if d > 0 {
@@ -693,8 +708,9 @@ fn seq_part(ctx: &Ctx, res: &mut PartResult, depth: usize, aggressive: bool, as_
                         want.push(("his".into(), if as_dist { 'd' } else { 'h' }, hv.iter().map(|v| format!("{:?}", v)).collect()));
                         hv.clear();
                     }
-                    let mut got: Vec<(String, char, Vec<String>)> = msgs.iter().map(|m| (m.name.clone(), m.ty, m.values.clone())).collect();
-                    got.retain(|g| !(g.1 == 'c' && g.2 == ["0"] && ((g.0 == "ci" && !ci_ever) || (g.0 == "ca" && !ca_ever))));
+                    // a series is identified by its name and its tags
+                    let mut got: Vec<(String, char, Vec<String>)> = msgs.iter().map(|m| (if m.tags.is_empty() { m.name.clone() } else { format!("{}#{}", m.name, m.tags.join(",")) }, m.ty, m.values.clone())).collect();
+                    got.retain(|g| !(g.1 == 'c' && g.2 == ["0"] && ((g.0 == "ci" && !ci_ever) || (g.0 == "ca" && !ca_ever) || (g.0 == "ci#route:b" && !cb_ever))));
                     // numeric comparison for the gauge (formatting is C09's business)
                     for gt in got.iter_mut().filter(|x| x.1 == 'g') {
                         if let Ok(v) = gt.2[0].parse::<f64>() {
@@ -734,7 +750,7 @@ fn seq_part(ctx: &Ctx, res: &mut PartResult, depth: usize, aggressive: bool, as_
                     }
                     for m in &msgs {
                         let want_ts = aggressive && (m.ty == 'c' || m.ty == 'g');
-                        if m.ts.is_some() != want_ts || !m.tags.is_empty() || m.rate.is_some() {
+                        if m.ts.is_some() != want_ts || m.rate.is_some() {
                             res.violation("timestamp-mode-mismatch", format!("{:?} message: timestamp {:?}, tags {:?}, rate {:?} in {} mode with sampling off", m.ty, m.ts, m.tags, m.rate, if aggressive { "Aggressive" } else { "Conservative" }), cfg.clone());
                             return Some(step.min(seq.len() - 1));
                         }
